@@ -96,6 +96,10 @@ def check(P: Project, R: Report) -> None:
     waited = [(st, n) for st, n in sout.ret if any(e.startswith("wait:") for e in st.events)]
     waited += [(st, n) for st, _t, n in sout.exc if any(e.startswith("wait:") for e in st.events)]
     R.need(waited or W.wait is W.send, "anchor: no path of send_message reaches the wait")
+    for st, node in sout.ret:
+        has_wait = any(e.startswith("wait:") for e in st.events)
+        R.ob("R3", "every returning path of send_message has waited for the response", has_wait, f"{srel}:{node.lineno}",
+             f"`{ast.unparse(node)[:50]}` returns without having awaited the response (events {[e.split(':')[0] for e in st.events]})")
     id_param = next(iter(id_params)) if id_params else None
     for st, node in waited:
         where = f"{srel}:{getattr(node, 'lineno', 0)}"
